@@ -105,9 +105,10 @@ def stamp(form_i: int, edit_i: int, b_edit: bool, new_note: bool, title_edit: bo
     post: _
     """
     ob = run(form_i, edit_i, b_edit, new_note, title_edit, today_i)
+    excluded = kf_excluded(form_i, edit_i, today_i)      # (evaluated while tracing: the arguments are symbolic)
     with NoTracing():
         ob = deep_realize(ob)
-        if kf_excluded(form_i, edit_i, today_i):
+        if excluded:
             return True
         ok, _why = cm.judge(ob)
     return V(ok and ob["ok_events"])
